@@ -1,4 +1,5 @@
 import NbdimeModel
+import NbdimeProofs.Lemmas.SplitLines
 /-
   C15 — browser-side patching agrees with the Python side. Proved here: the two line splitters
   agree on every string that contains none of the eight separators Python knows and JavaScript
@@ -8,20 +9,6 @@ import NbdimeModel
   (kernel-checked; findings F-ts-actions, F-splitlines are replayed on the real TypeScript).
 -/
 namespace Nbdime
-
-/-- joining what `str.splitlines(True)` returns gives the string back -/
-theorem splitLinesAux_flatten (s cur : List Char) :
-    (splitLinesAux s cur).flatten = cur.reverse ++ s := by
-  fun_induction splitLinesAux s cur with
-  | case1 cur h => have : cur = [] := by simpa using h
-                   simp [this]
-  | case2 cur h => simp
-  | case3 rest cur ih => simp [ih]
-  | case4 c rest cur hne hsep ih => simp [ih]
-  | case5 c rest cur hne hsep ih => simp [ih]
-
-theorem join_splitLines (s : List Char) : (splitLines s).flatten = s := by
-  simp [splitLines, splitLinesAux_flatten]
 
 /-- the two splitters agree line by line once the final empty match is disregarded -/
 theorem C15_same_split (s cur : List Char) (h : ∀ c ∈ s, Ts.exotic c = false) :
